@@ -28,12 +28,50 @@ class Ctx:
     def run(self, cs, label='cases', **kw):
         cases = cs.cases if hasattr(cs, 'cases') else cs
         res = run_cases(cases, self.work, label=label, **kw)
+        self._raw_model = getattr(self, '_raw_model', {})
+        self._raw_model.update(res.model_raw)
         self.evaluations += len(cases)
         for c in cases:
             self.fam[c.fam] = self.fam.get(c.fam, 0) + 1
         for cr in res.crashes:
             self.crashes.append(cr)
+        if 'model' in kw.get('sides', ('impl', 'model')) and not getattr(self, '_kc_done', False):
+            self._kc_done = True
+            self.kernel_crosscheck(cases, res, 60 if self.quick else 1500)
         return res
+
+    def kernel_crosscheck(self, cases, res, k):
+        """a seeded sample of the cases is re-evaluated inside Coq (vm_compute of Runner.run_line)
+        and compared with what the extracted OCaml runner printed: extraction and the OCaml glue
+        are thereby validated against the kernel's evaluator"""
+        pool = [c for c in cases if c.id in res.model and len(c.line) < 1500]
+        if not pool:
+            return
+        rng = random.Random(self.seed + 17)
+        sample = pool if len(pool) <= k else rng.sample(pool, k)
+        def lst(b):
+            return '[' + ';'.join(str(x) for x in b) + ']'
+        rows = []
+        for c in sample:
+            out = self._raw_model.get(c.id)
+            if out is None:
+                continue
+            rows.append('(%s, %s)' % (lst(c.line.encode('utf-8')), lst(out.encode('utf-8'))))
+        if not rows:
+            return
+        vf = os.path.join(self.work, 'KernelCheck.v')
+        with open(vf, 'w') as f:
+            f.write('From Rules Require Import Base Runner.\nOpen Scope N_scope.\n')
+            f.write('Definition cases : list (bytes * bytes) := [\n' + ';\n'.join(rows) + '].\n')
+            f.write('Definition bad := Eval vm_compute in length (filter (fun io => negb (bytes_eqb (run_line (fst io)) (snd io))) cases).\nPrint bad.\n')
+        p = subprocess.run(['bash', '-c', 'cd %s && timeout 1200 coqc -Q %s/coq Rules KernelCheck.v' % (self.work, VERIF)],
+                           stdout=subprocess.PIPE, stderr=subprocess.PIPE)
+        out = p.stdout.decode('utf-8', 'replace')
+        ok = p.returncode == 0 and re.search(r'bad\s*=\s*0\b', out) is not None
+        self.extra['kernel_crosschecked'] = self.extra.get('kernel_crosschecked', 0) + len(rows)
+        if not ok:
+            self.extra['kernel_crosscheck_failed'] = (out + p.stderr.decode('utf-8', 'replace'))[-600:]
+            self.mismatches.append((Case('kernel', 'kernel', '(kernel-crosscheck)', 'kernel'), 'extracted runner vs vm_compute', out[-200:], 'bad = 0'))
 
     def compare(self, cases, res, fields, scope=None, nontrivial=None):
         """correspondence on the projection `fields` for the cases in scope"""
